@@ -29,7 +29,7 @@ def warm(cls: str, p: dict) -> int:
 def status_ok(cls: str, d) -> bool:
     st = d.status
     for k, v in st.items():
-        if bool(getattr(d, k)) != bool(v):
+        if k in ("drift", "warning") and bool(getattr(d, k)) != bool(v):      # further keys (a third state of the control chart ...) are not this property's
             return False
     if "drift" not in st:
         return False
